@@ -242,6 +242,56 @@ func ruleC09(p *Prog, r *Res) {
 	if trigger[effTag] == nil || trigger[effConv] == nil || uncertainFld == nil || s2cFld == nil {
 		return
 	}
+	// the flags that hold a trigger back: Manager booleans on which the trigger function returns at once. Clearing one
+	// of them is what lets the held-back work start, so it counts as a raise of that kind (the frozen pair
+	// taggingJobRunning/converterJobRunning is what the tree has today; a trigger that also waits for another job
+	// needs that job's completion to call it)
+	blockers := map[effKind]map[*types.Var]bool{}
+	mgrNamed := p.Named("manager", "Manager")
+	for _, k := range []effKind{effTag, effConv} {
+		blockers[k] = map[*types.Var]bool{}
+		if flagFld[k] != nil {
+			blockers[k][flagFld[k]] = true
+		}
+		tf := p.FnOfObj(trigger[k])
+		if tf == nil || tf.Body() == nil || mgrNamed == nil {
+			continue
+		}
+		tinfo := tf.Pkg.TypesInfo
+		for _, st := range tf.Body().List {
+			ifs, ok := st.(*ast.IfStmt)
+			if !ok || len(ifs.Body.List) == 0 {
+				continue
+			}
+			if _, isRet := ifs.Body.List[len(ifs.Body.List)-1].(*ast.ReturnStmt); !isRet {
+				continue
+			}
+			for _, d := range disjuncts(ifs.Cond) {
+				se, ok := ast.Unparen(d).(*ast.SelectorExpr)
+				if !ok {
+					continue
+				}
+				v, ok := tinfo.Uses[se.Sel].(*types.Var)
+				if !ok || !v.IsField() {
+					continue
+				}
+				if b, isB := v.Type().Underlying().(*types.Basic); !isB || b.Kind() != types.Bool {
+					continue
+				}
+				if n := namedOf(tinfo.TypeOf(se.X)); n != nil && n.Obj() == mgrNamed.Obj() {
+					blockers[k][v] = true
+				}
+			}
+		}
+	}
+	isBlocker := func(info *types.Info, e ast.Expr, k effKind) *types.Var {
+		for v := range blockers[k] {
+			if isFieldOf(info, e, v) {
+				return v
+			}
+		}
+		return nil
+	}
 	isEmptyBitmaskLit := func(e ast.Expr) bool {
 		cl, ok := ast.Unparen(e).(*ast.CompositeLit)
 		return ok && len(cl.Elts) == 0
@@ -265,9 +315,9 @@ func ruleC09(p *Prog, r *Res) {
 						// a copy local to a value that is not installed does not matter; we cannot tell, so count it
 						hit, what = true, "assignment to "+types.ExprString(l)
 					}
-					if isFieldOf(finfo, l, flagFld[k]) && i < len(s.Rhs) {
+					if bv := isBlocker(finfo, l, k); bv != nil && i < len(s.Rhs) {
 						if id, ok := s.Rhs[i].(*ast.Ident); ok && id.Name == "false" {
-							hit, what = true, flagFld[k].Name()+" = false"
+							hit, what = true, bv.Name()+" = false"
 						}
 					}
 				}
